@@ -64,14 +64,27 @@ func init() {
 
 // ---- C01.getonce -----------------------------------------------------------------------------------------------
 
+type getonceSpec struct{ fn, owner, mapF, lock string }
+
 func c01getonce(c *an.Ctx) {
-	la := c.P.Locks()
-	for _, spec := range []struct{ fn, owner, mapF, lock string }{
+	getonce(c, "nsqd", []getonceSpec{
 		{"(*NSQD).GetTopic", "NSQD", "topicMap", "NSQD.RWMutex"},
 		{"(*Topic).getOrCreateChannel", "Topic", "channelMap", "Topic.RWMutex"},
-	} {
-		fn := c.Fn("nsqd", spec.fn)
-		mapF := c.P.Field("nsqd", spec.owner, spec.mapF)
+	})
+}
+
+func c14getonce(c *an.Ctx) {
+	getonce(c, "nsqlookupd", []getonceSpec{
+		{"(*RegistrationDB).AddRegistration", "RegistrationDB", "registrationMap", "RegistrationDB.RWMutex"},
+		{"(*RegistrationDB).AddProducer", "RegistrationDB", "registrationMap", "RegistrationDB.RWMutex"},
+	})
+}
+
+func getonce(c *an.Ctx, pkg string, specs []getonceSpec) {
+	la := c.P.Locks()
+	for _, spec := range specs {
+		fn := c.Fn(pkg, spec.fn)
+		mapF := c.P.Field(pkg, spec.owner, spec.mapF)
 		if fn == nil || mapF == nil {
 			continue
 		}
@@ -642,6 +655,27 @@ func c17stateless(c *an.Ctx) {
 			case *ssa.MapUpdate:
 				if f, _ := an.LoadedField(an.Strip(x.Map)); f != nil && isClientField(f) {
 					bad, pos, where = "write to map Client."+f.Name(), x.Pos(), fn
+				}
+			case *ssa.FieldAddr:
+				// the address of a field handed to anything but a load: a method of the field's type may write it
+				// (sync.Map.Store, a mutex-protected cache)
+				if !isClientField(an.FieldOf(x)) {
+					return
+				}
+				if _, fresh := an.Strip(x.X).(*ssa.Alloc); fresh {
+					return
+				}
+				for _, r := range an.Referrers(x) {
+					if u, ok := r.(*ssa.UnOp); ok && u.Op == token.MUL {
+						continue
+					}
+					if _, ok := r.(*ssa.DebugRef); ok {
+						continue
+					}
+					if st, ok := r.(*ssa.Store); ok && st.Addr == ssa.Value(x) {
+						continue // reported above
+					}
+					bad, pos, where = "the address of Client."+an.FieldOf(x).Name()+" is used by "+r.String(), x.Pos(), fn
 				}
 			}
 		})
